@@ -24,6 +24,7 @@ from props import _outdisp as od
 from props._outdisp import hexs
 
 ADDED, REMOVED = 'ProcessGroupAddedEvent', 'ProcessGroupRemovedEvent'
+STILL_RUNNING, ALREADY_ADDED = 91, 90        # xmlrpc.Faults (checked against the tree under verification in GroupWorld)
 ST = {0: 'STOPPED', 10: 'STARTING', 20: 'RUNNING', 30: 'BACKOFF', 40: 'STOPPING', 100: 'EXITED', 200: 'FATAL', 1000: 'UNKNOWN'}
 CODE = {v: k for k, v in ST.items()}
 
@@ -60,6 +61,7 @@ def _faulty(cls):
     class Faulty(cls):
         fault = None
         flavor = 'RuntimeError'
+        live = None              # the world's list of live group objects (made, not yet before_remove()d)
 
         def after_setuid(self):
             if self.fault == 'after_setuid':
@@ -71,11 +73,17 @@ def _faulty(cls):
                 _raise(self, 'make_group')
             g = cls.make_group(self)
             orig, cfg = g.before_remove, self
+            # the group object is live from here until its before_remove() has run (a listener pool: subscribed)
+            if cfg.live is not None and cfg.name not in cfg.live:
+                cfg.live.append(cfg.name)
 
             def before_remove():
                 if cfg.fault == 'before_remove':
                     _raise(cfg, 'before_remove')
-                return orig()
+                r = orig()
+                if cfg.live is not None and cfg.name in cfg.live:
+                    cfg.live.remove(cfg.name)
+                return r
             g.before_remove = before_remove
             return g
     Faulty.__name__ = 'Faulty' + cls.__name__
@@ -93,6 +101,9 @@ class GroupWorld:
         from supervisor.tests.base import DummyOptions, DummyPConfig
         from supervisor.states import ProcessStates
         self.events, self.PS = events, ProcessStates
+        from supervisor.xmlrpc import Faults
+        global STILL_RUNNING, ALREADY_ADDED
+        STILL_RUNNING, ALREADY_ADDED = Faults.STILL_RUNNING, Faults.ALREADY_ADDED
         events.clear()
         self.options = o = DummyOptions()
         self.sockdir = os.path.join(scratch, 'fcgi-sock')
@@ -104,6 +115,9 @@ class GroupWorld:
             'f': _faulty(FastCGIGroupConfig)(o, 'f', 999, pc('f'), UnixStreamSocketConfig(os.path.join(self.sockdir, 's'))),
         }
         o.process_group_configs = list(self.cfgs.values())
+        self.live = []
+        for c in self.cfgs.values():
+            c.live = self.live
         self.sup = supervisord.Supervisor(o)
         self.iface = SupervisorNamespaceRPCInterface(self.sup)
         self.notes = []
@@ -123,6 +137,14 @@ class GroupWorld:
 
     def groups(self):
         return list(self.sup.process_groups)
+
+    def probe(self):
+        """announce a TICK_5 (the type pool `b` is subscribed to) and report whether pool `b` -- the object in the table, or
+        the last one that was -- was offered it: an offered event carries the pool's poolserial (the header's poolserial:)"""
+        ev = self.events.Tick5Event(1000, self.sup)
+        before = dict(getattr(ev, 'pool_serials', None) or {})
+        self.events.notify(ev)
+        return 'b' in (getattr(ev, 'pool_serials', None) or {}) and 'b' not in before
 
     def op(self, op):
         """op = ['add', name, fault, via, flavor] | ['remove', name, unstopped, fault, via, flavor] | ['sockdir', 0|1]
@@ -188,6 +210,7 @@ def group_history(ctx, hist, tag=''):
                 w.op(op)
                 continue
             before = w.groups()
+            live_before = list(w.live)
             del w.notes[:]
             name = op[1]
             env_missing = name == 'f' and op[0] == 'add' and not os.path.isdir(w.sockdir)
@@ -195,6 +218,18 @@ def group_history(ctx, hist, tag=''):
             after = w.groups()
             notes = list(w.notes)
             where = 'op %d %r' % (k, op)
+            # ---- a refused call changes nothing; a pool is subscribed exactly while it is in the table -----------------
+            if res in ('false', 'fault:%d' % STILL_RUNNING, 'fault:%d' % ALREADY_ADDED) and (after != before or w.live != live_before or notes):
+                ctx.violation('refused-call-changed-something', '%s answered %s, yet: table %r -> %r, live group objects %r -> %r, notifications %r' % (
+                    where, res, before, after, live_before, w.live, [(c, g) for c, g, _, _ in notes]), inp)
+            offered = w.probe()
+            if ('b' in after) != offered:
+                ctx.violation('pool-in-table-not-offered-event' if 'b' in after else 'removed-pool-still-offered-event',
+                              '%s answered %s: listener pool b is %sin supervisord.process_groups, and a TICK_5 announced now is %soffered to it' % (
+                                  where, res, '' if 'b' in after else 'not ', '' if offered else 'not '), inp)
+            if sorted(w.live) != sorted(after):
+                ctx.violation('group-live-but-not-in-table' if set(w.live) - set(after) else 'group-in-table-but-not-live',
+                              '%s answered %s: group objects made and not before_remove()d %r, supervisord.process_groups %r' % (where, res, sorted(w.live), sorted(after)), inp)
             # ---- monitors: the property in its own terms -------------------------------------------------------
             for cls, g, present, payload in notes:
                 if payload != 'groupname:%s\n' % g:
@@ -244,7 +279,8 @@ def group_history(ctx, hist, tag=''):
                     ops.append('remove %s %d %s' % (name, 1 if op[2] else 0, op[3] or '-'))
             if res.startswith('fault:') or res.startswith('raised:'):
                 ctx.count('group-failure:%s:%s' % (op[0], res if res.startswith('fault:') else 'raised'))
-            lines.append('res=%s | notes=%s | groups=%s' % (res, ','.join('%s:%s:%d' % (c, g, p) for c, g, p, _ in notes) or '-', ','.join(after) or '-'))
+            lines.append('res=%s | notes=%s | groups=%s | live=%s' % (res, ','.join('%s:%s:%d' % (c, g, p) for c, g, p, _ in notes) or '-',
+                                                                 ','.join(after) or '-', ','.join(w.live) or '-'))
     finally:
         w.close()
     ctx.case_done(('groups', repr(hist)), nontrivial=any(l.split(' | ')[1] != 'notes=-' for l in lines))
@@ -261,6 +297,11 @@ GROUP_CORPUS = [
     [['add', 'a', 'make_group', 'rpc'], ['add', 'a', None, 'rpc'], ['remove', 'a', True, None, 'rpc'], ['remove', 'a', False, 'before_remove', 'direct'], ['remove', 'a', False, None, 'rpc'], ['add', 'a', None, 'direct']],
     [['add', 'b', 'after_setuid', 'direct'], ['add', 'b', None, 'direct'], ['add', 'b', None, 'direct'], ['remove', 'b', False, None, 'direct'], ['remove', 'b', False, None, 'direct']],
     [['add', 'nosuch', None, 'rpc'], ['remove', 'a', False, None, 'rpc'], ['remove', 'a', False, None, 'direct']],
+    # seed C11-8: the removal of listener pool b is refused (a member is running); b stays in the table and must keep being offered
+    # events (the probe after every operation); then it is stopped, removed for good, and added again
+    [['add', 'b', None, 'rpc'], ['add', 'a', None, 'direct'], ['remove', 'b', True, None, 'rpc'], ['remove', 'b', True, None, 'direct'],
+     ['remove', 'a', True, None, 'rpc'], ['remove', 'b', False, 'before_remove', 'rpc', 'ValueError'], ['remove', 'b', False, None, 'rpc'],
+     ['add', 'b', None, 'rpc'], ['remove', 'a', False, None, 'direct']],
     # a failed addition through the RPC method: a ValueError is answered as a fault, another exception escapes; either way nothing is
     # announced and the retry announces once (F48)
     [['add', 'a', 'make_group', 'rpc', 'ValueError'], ['add', 'a', 'make_group', 'rpc', 'RuntimeError'], ['add', 'a', 'after_setuid', 'rpc', 'ValueError'],
